@@ -89,10 +89,23 @@ func (h *hist) shape() string {
 	if a, err := sdk.AccAddressFromBech32(p.ForceCloseFundAddress); err == nil && h.w.app.BankKeeper.BlockedAddr(a) {
 		s += ".fcfund-blocked"
 	}
+	if p.IncrementalInterestPaymentFundAddress == "" && p.IncrementalInterestPaymentEnabled {
+		s += ".iipfund-empty"
+	}
+	if p.ForceCloseFundAddress == "" {
+		s += ".fcfund-empty"
+	}
 	if h.cross {
 		s += ".crosspair"
 	}
 	return s
+}
+
+func addrOrDash(a string) string {
+	if a == "" {
+		return "-"
+	}
+	return a
 }
 
 // after every operation: the state dump (model must agree) and MarginOK judged on it
@@ -101,13 +114,21 @@ func (h *hist) observe(site string) {
 	h.out.Emit("obs", fmt.Sprintf("%s %s C=%s %s", p, m, c, b), "obs", false)
 	oc := strings.Split(c, ",")[1]
 	h.out.Emit(fmt.Sprintf("chk c13.marginok tag=%s.marginok%s %s %s %s", site, h.shape(), p, m, oc), "true", "chk.marginok", false)
+	// C01 restricted to this world: for every token the clp module account holds exactly what the pool
+	// records account for (balance + custody; no reward buckets here) — bank dump against keeper dump
+	clpAddr := h.w.ModuleAddr(clptypes.ModuleName)
+	var ds []string
+	for _, d := range h.w.denoms {
+		ds = append(ds, fmt.Sprintf("%s,%s", d, h.w.Bal(clpAddr, d)))
+	}
+	h.out.Emit(fmt.Sprintf("chk c01.marginbacking tag=%s.backing%s %s D=%s", site, h.shape(), p, strings.Join(ds, ";")), "true", "chk.backing", false)
 }
 
 func (h *hist) emitParams() {
 	p := h.w.app.MarginKeeper.GetParams(h.w.ctx)
 	h.out.Emit(fmt.Sprintf("cfg params %s %s %s %s %d %d %s %s %s %s %s %s %s", decS(p.LeverageMax), decS(p.SafetyFactor), decS(p.PoolOpenThreshold),
-		decS(p.InterestRateMin), p.EpochLength, p.MaxOpenPositions, decS(p.ForceCloseFundPercentage), p.ForceCloseFundAddress,
-		decS(p.IncrementalInterestPaymentFundPercentage), p.IncrementalInterestPaymentFundAddress, b2s(p.IncrementalInterestPaymentEnabled),
+		decS(p.InterestRateMin), p.EpochLength, p.MaxOpenPositions, decS(p.ForceCloseFundPercentage), addrOrDash(p.ForceCloseFundAddress),
+		decS(p.IncrementalInterestPaymentFundPercentage), addrOrDash(p.IncrementalInterestPaymentFundAddress), b2s(p.IncrementalInterestPaymentEnabled),
 		b2s(p.WhitelistingEnabled), b2s(p.RowanCollateralEnabled)), "ok", "cfg", false)
 	h.out.Emit(fmt.Sprintf("cfg pools %s %s", commaS(p.Pools), commaS(p.ClosedPools)), "ok", "cfg", false)
 }
@@ -254,9 +275,23 @@ func (h *hist) txPlain(f func(ctx sdk.Context) error) {
 	}
 }
 
+// MsgUpdateParams as it arrives: encoded and decoded again (an omitted optional string field is the
+// empty string), ValidateBasic, then the message server
 func (h *hist) adminParams(p *margintypes.Params) {
+	sent := &margintypes.MsgUpdateParams{Signer: h.adm.String(), Params: p}
+	bz, err := sent.Marshal()
+	if err != nil {
+		panic(err)
+	}
+	msg := &margintypes.MsgUpdateParams{}
+	if err := msg.Unmarshal(bz); err != nil {
+		panic(err)
+	}
+	if err := msg.ValidateBasic(); err != nil {
+		panic(err)
+	}
 	h.txPlain(func(ctx sdk.Context) error {
-		_, err := h.w.msrv.UpdateParams(sdk.WrapSDKContext(ctx), &margintypes.MsgUpdateParams{Signer: h.adm.String(), Params: p})
+		_, err := h.w.msrv.UpdateParams(sdk.WrapSDKContext(ctx), msg)
 		return err
 	})
 }
@@ -444,18 +479,29 @@ func (h *hist) opAdminClose() {
 		})
 		line = fmt.Sprintf("tx forceclose %s %s %d", signer.String(), addr, id)
 	} else {
-		tf := rng.Bool()
-		msg := &margintypes.MsgAdminClose{Signer: signer.String(), MtpAddress: addr, Id: id, TakeMarginFund: tf}
-		if msg.ValidateBasic() != nil {
-			return
-		}
-		res = w.Tx(func(ctx sdk.Context) error {
-			_, err := w.msrv.AdminClose(sdk.WrapSDKContext(ctx), msg)
-			return err
-		})
-		line = fmt.Sprintf("tx adminclose %s %s %d %s", signer.String(), addr, id, b2s(tf))
+		h.doAdminClose(signer, addr, id, rng.Bool())
+		return
 	}
 	h.out.Emit(line, res, "adminclose."+res, res == "ok")
+	h.observe("tx.adminclose")
+	if existed && !h.exists(addr, id) {
+		isAdm := w.app.AdminKeeper.IsAdminAccount(w.ctx, admintypes.AdminType_MARGIN, signer)
+		h.out.Emit(fmt.Sprintf("chk c13.closer tag=tx.adminclose.closer %s %s %s", signer.String(), addr, b2s(isAdm)), "true", "chk.closer", false)
+	}
+}
+
+func (h *hist) doAdminClose(signer sdk.AccAddress, addr string, id uint64, tf bool) {
+	w := h.w
+	existed := h.exists(addr, id)
+	msg := &margintypes.MsgAdminClose{Signer: signer.String(), MtpAddress: addr, Id: id, TakeMarginFund: tf}
+	if msg.ValidateBasic() != nil {
+		return
+	}
+	res := w.Tx(func(ctx sdk.Context) error {
+		_, err := w.msrv.AdminClose(sdk.WrapSDKContext(ctx), msg)
+		return err
+	})
+	h.out.Emit(fmt.Sprintf("tx adminclose %s %s %d %s", signer.String(), addr, id, b2s(tf)), res, "adminclose."+res, res == "ok")
 	h.observe("tx.adminclose")
 	if existed && !h.exists(addr, id) {
 		isAdm := w.app.AdminKeeper.IsAdminAccount(w.ctx, admintypes.AdminType_MARGIN, signer)
@@ -527,7 +573,22 @@ func (h *hist) doSwap(sent, recv string, amt *big.Int) {
 func (h *hist) opParams() {
 	w, rng := h.w, h.rng
 	p := w.app.MarginKeeper.GetParams(w.ctx)
-	switch rng.Intn(8) {
+	switch rng.Intn(12) {
+	case 8: // the optional fund address fields left out of the message: stored empty, nothing validates them
+		p.IncrementalInterestPaymentFundAddress = ""
+	case 9:
+		p.ForceCloseFundAddress = ""
+	case 10:
+		p.IncrementalInterestPaymentFundAddress = ""
+		p.ForceCloseFundAddress = ""
+	case 11:
+		p.IncrementalInterestPaymentFundPercentage = h.decChoice("0.1", "0", "1", "0.5")
+		p.ForceCloseFundPercentage = h.decChoice("0.1", "0", "1", "0.5")
+		if rng.Bool() {
+			p.IncrementalInterestPaymentFundAddress = ""
+		} else {
+			p.ForceCloseFundAddress = ""
+		}
 	case 0:
 		p.IncrementalInterestPaymentEnabled = !p.IncrementalInterestPaymentEnabled
 	case 1:
@@ -633,6 +694,42 @@ func (h *hist) directed(kind int) {
 		h.setParams(&p)
 		h.opBlock()
 		h.opBlock()
+	case 6: // the interest fund address left out of MsgUpdateParams while positions are open, fund percentage non-zero:
+		// the getter panics — the hook's per-position recover swallows it, a mid-epoch Close is refused — nothing moves
+		h.doOpen(t, "rowan", "cusdc", amt("cusdc", true), margintypes.Position_LONG, sdk.NewDec(2))
+		h.doOpen(h.traders[1], "ceth", "rowan", amt("ceth", false), margintypes.Position_LONG, sdk.NewDec(2))
+		p.IncrementalInterestPaymentFundAddress = ""
+		p.IncrementalInterestPaymentFundPercentage = sdk.MustNewDecFromStr("0.5")
+		h.setParams(&p)
+		for !h.opBlock() {
+		}
+		for h.opBlock() {
+		}
+		h.doClose(t, 1)
+		h.doAdminClose(h.adm, h.traders[1].String(), 2, true)
+		p.IncrementalInterestPaymentFundPercentage = sdk.ZeroDec() // a zero percentage does not help: the getter runs first
+		h.setParams(&p)
+		h.doClose(t, 1)
+		p.IncrementalInterestPaymentFundAddress = h.fund.String()
+		h.setParams(&p)
+		h.doClose(t, 1)
+	case 7: // the force-close fund address left out: closes by the administrator with the fund cut, and liquidations
+		h.doOpen(t, "rowan", "cusdc", amt("cusdc", true), margintypes.Position_LONG, sdk.MustNewDecFromStr("1.5"))
+		h.doOpen(h.traders[1], "ceth", "rowan", amt("ceth", false), margintypes.Position_LONG, sdk.MustNewDecFromStr("1.5"))
+		h.doOpen(h.traders[2], "rowan", "ceth", amt("ceth", true), margintypes.Position_LONG, sdk.MustNewDecFromStr("1.2"))
+		p.ForceCloseFundAddress = ""
+		p.ForceCloseFundPercentage = sdk.MustNewDecFromStr("0.5")
+		h.setParams(&p)
+		for !h.opBlock() {
+		}
+		h.doAdminClose(h.adm, t.String(), 1, true)  // return amount > 0, fund cut asked for: getter panics
+		h.doAdminClose(h.adm, t.String(), 1, false) // without the fund cut the getter is not reached
+		p.SafetyFactor = sdk.NewDec(100)            // liquidate the rest in the hook
+		h.setParams(&p)
+		for !h.opBlock() {
+		}
+		for !h.opBlock() {
+		}
 	case 5: // every pool at once: positions on both sides of every pool, two epoch boundaries, everything closed
 		// again — a lookup of "the positions of pool X" that also returns those of a pool whose symbol
 		// merely starts with X (or of X + the start of an address) shows here as custody moved on the wrong pool
@@ -775,7 +872,7 @@ func init() {
 			}
 			h := &hist{w: w, out: out, rng: rng, fixedPools: nhist == 4}
 			h.setup()
-			if nhist < 6 {
+			if nhist < 8 {
 				h.directed(nhist)
 				nhist++
 				continue
